@@ -10,6 +10,8 @@ at interpreter start, before any meson module.  It is inert unless one of the va
                                 no finally blocks, no atexit, user-space buffers are lost - like SIGKILL.
   MESON_VERIF_CRASH_MODE=torn   (only meaningful when mutation k is a write) perform the first half of the
                                 write(2), then die.
+  MESON_VERIF_CRASH_MODE=oserror  do not die: make mutation k fail with OSError(ENOSPC) (an I/O fault the program
+                                sees as an exception; used for "a command that fails leaves the state as it was").
 
 What is a mutation (everything is intercepted at the lowest Python-visible level, so that higher level
 helpers - os.makedirs, os.removedirs, shutil.copy*/copyfile/move/rmtree, pathlib.Path.write_text/
@@ -47,6 +49,7 @@ def _activate():
     logs_slash = logs + _os.sep
     crash_at = int(_CRASH_AT) if _CRASH_AT else 0
     torn_mode = _MODE == 'torn'
+    oserror_mode = _MODE == 'oserror'
 
     o_open = _os.open
     o_write = _os.write
@@ -96,6 +99,9 @@ def _activate():
             if logfd >= 0:
                 o_write(logfd, ('%d\t%s\t%s\t%d\n' % (n, op, p[len(root_slash):] or '.', size)).encode('utf-8', 'surrogateescape'))
             if crash_at and n == crash_at:
+                if oserror_mode:
+                    # I/O fault instead of a kill: the operation fails with ENOSPC and the program carries on
+                    raise OSError(28, 'No space left on device (injected by the verification shim)', p)
                 if torn_mode and tearable:
                     return True
                 o_exit(137)
